@@ -662,6 +662,17 @@ pub fn driver_main(prop: &Prop, opts: &DriverOpts) -> i32 {
             fin(&mut merged, &children_notes);
         }
     }
+    // results of an external sanitizer pass run by ./check before the monitor (Miri for C01-thorough)
+    if let Ok(i) = std::env::var("AGV_EXTRA_INFO") {
+        if !i.is_empty() {
+            merged.info.insert("external sanitizer pass".into(), json!(i));
+        }
+    }
+    if let Ok(v) = std::env::var("AGV_EXTRA_VIOLATION") {
+        if !v.is_empty() {
+            crash_violations.push(("undefined behaviour reported by Miri in a decoder call".into(), v));
+        }
+    }
     for (kind, detail) in crash_violations {
         merged.cur_stream = "crash".into();
         merged.profile = "driver".into();
